@@ -2,7 +2,7 @@
 From AV.Model Require Import Base Bytes Vec.
 From AV.Spec Require Import VecSpec.
 From Coq Require FinFun.
-From AV.Proofs Require Import MemLemmas Rep VecProofs RangeProofs.
+From AV.Proofs Require Import MemLemmas Rep VecProofs RangeProofs CapProofs.
 Arguments N.add : simpl never.
 Arguments N.sub : simpl never.
 Arguments N.mul : simpl never.
@@ -534,7 +534,8 @@ Lemma clone_prepare c src u xs v0 :
     mem_build c (vbk src) (v0, u) = Ok tt (vb, ub) /\
     reserve c (vlen src) (vb, ub) = Ok tt (v1, u1) /\
     Rep c v1 [] /\ N.of_nat (length xs) <= vcap v1 /\ vbk v1 = vbk src /\
-    unext u1 = unext u /\ ufuse u1 = ufuse u /\ uevents u1 = uevents u.
+    unext u1 = unext u /\ ufuse u1 = ufuse u /\ uevents u1 = uevents u /\
+    (fixed_backend (vbk src) -> vcap v1 = vcap src).
 Proof.
   intros Hwf Hbw Hbc HR Hfit.
   destruct (mem_build_run c src v0 u Hbc) as (vb & ub & Eb & Hfx & Hnf).
@@ -555,7 +556,12 @@ Proof.
   destruct (reserve_ok c vb ub [] (vlen src) Hwf HRb Hroom)
     as (v1 & u1 & Er & HR1 & Hc1 & _ & Hl1 & Hbk1 & (Hsn & Hsf & Hse) & _).
   exists vb, ub, v1, u1. split; [exact Eb|]. split; [exact Er|]. split; [exact HR1|].
-  split; [lia|]. split; [congruence|]. split; [congruence|]. split; congruence.
+  split; [lia|]. split; [congruence|]. split; [congruence|]. split; [congruence|]. split; [congruence|].
+  intros F. pose proof (Hfx F) as Hcb.
+  assert (Hr : vlen vb + vlen src <= vcap vb).
+  { rewrite Hlb, N.add_0_l, Hcb. apply (rep_cap _ _ _ HR). }
+  destruct (reserve_noop c vb ub [] (vlen src) HRb Hr) as [En _].
+  rewrite En in Er. injection Er as <- _. exact Hcb.
 Qed.
 
 (** dropping the [Mem] object never fails and is invisible to user code *)
@@ -602,11 +608,12 @@ Theorem clone_vec_ok c src u xs v0 :
     clone_vec c src (v0, u) = Ok tt (v', u') /\
     Rep c v' ys /\ vbk v' = vbk src /\ length ys = length xs /\
     unext u' = unext u + N.of_nat (length xs) /\ ufuse u' = None /\
-    uevents u' = rev (clone_events xs ys) ++ uevents u.
+    uevents u' = rev (clone_events xs ys) ++ uevents u /\
+    (fixed_backend (vbk src) -> vcap v' = vcap src).
 Proof.
   intros Hwf Hbw Hbc HR Hf Hfit ys.
   destruct (clone_prepare c src u xs v0 Hwf Hbw Hbc HR Hfit)
-    as (vb & ub & v1 & u1 & Eb & Er & HR1 & Hc1 & Hbk1 & Hn1 & Hf1 & He1).
+    as (vb & ub & v1 & u1 & Eb & Er & HR1 & Hc1 & Hbk1 & Hn1 & Hf1 & He1 & Hfc1).
   pose proof (rep_len _ _ _ HR) as Hlen.
   pose proof (rep_len _ _ _ HR1) as Hl1. cbn [length N.of_nat] in Hl1.
   destruct (clone_loop_run c src xs [] [] v1 u1) as (m' & u2 & El & Hlm & Hh & Hn2 & Hf2 & Hlog).
@@ -621,7 +628,7 @@ Proof.
   unfold clone_vec. bstep Eb.
   exists (with_len (vlen src) (with_mem m' v1)), u2. split.
   - apply unwinding_ok. bstep Er. rewrite Hlen, Nat2N.id. bstep El. reflexivity.
-  - split; [|split; [|split; [|split; [|split]]]].
+  - split; [|split; [|split; [|split; [|split; [|split]]]]].
     + apply rep_of_held; cbn [with_len with_mem vlen vcap].
       * unfold ys. rewrite fresh_ids_length. exact Hlen.
       * lia.
@@ -635,6 +642,7 @@ Proof.
     + exact Hn2.
     + exact Hf2.
     + unfold uevents in *. rewrite Hlog, uevents_clones, He1. reflexivity.
+    + cbn [with_len with_mem vcap]. exact Hfc1.
 Qed.
 
 (** the k-th Clone panics: the prototype is dropped (destroying the clones already made
@@ -652,7 +660,7 @@ Theorem clone_vec_panics c src u xs v0 k :
 Proof.
   intros Hwf Hbw Hbc HR Hf Hk Hfit.
   destruct (clone_prepare c src u xs v0 Hwf Hbw Hbc HR Hfit)
-    as (vb & ub & v1 & u1 & Eb & Er & HR1 & Hc1 & Hbk1 & Hn1 & Hf1 & He1).
+    as (vb & ub & v1 & u1 & Eb & Er & HR1 & Hc1 & Hbk1 & Hn1 & Hf1 & He1 & Hfc1).
   pose proof (rep_len _ _ _ HR) as Hlen.
   pose proof (rep_len _ _ _ HR1) as Hl1. cbn [length N.of_nat] in Hl1.
   destruct (clone_loop_fuse c src xs [] v1 u1 k) as (m' & u2 & El & Hf2 & Hlog).
